@@ -1260,10 +1260,24 @@ func rawStoreReason(b *ssa.BasicBlock) string {
 	classify := func(fs []fact) string {
 		out := ""
 		for _, fc := range fs {
+			// a verdict computed from what the selector parser returned (a helper that turns the parsed steps into keys
+			// and says whether all of them were keys)
+			if _, isBin := fc.cond.(*ssa.BinOp); !isBin {
+				if t := NewTB().Of(fc.cond).String(); strings.Contains(t, "ParseSelector(") || strings.Contains(t, "CachedSelectors(") {
+					out = "parser"
+				}
+			}
 			switch x := fc.cond.(type) {
 			case *ssa.Extract:
 				if _, isTA := x.Tuple.(*ssa.TypeAssert); isTA && !fc.truth {
 					return "non-key"
+				}
+				if call, isCall := x.Tuple.(*ssa.Call); isCall {
+					for _, a := range call.Call.Args {
+						if t := NewTB().Of(a).String(); strings.Contains(t, "ParseSelector(") || strings.Contains(t, "CachedSelectors(") {
+							out = "parser"
+						}
+					}
 				}
 			case *ssa.BinOp:
 				isNil := func(v ssa.Value) bool { k, ok := v.(*ssa.Const); return ok && k.IsNil() }
@@ -1316,4 +1330,27 @@ func rawStoreReason(b *ssa.BasicBlock) string {
 		return all
 	}
 	return ""
+}
+
+func init() { register("C03", ruleC03PathWriterCopies); register("C12", ruleC03PathWriterCopies) }
+
+// ruleC03PathWriterCopies: the path writer of the group emission copies existing maps into its own, not over them.
+func ruleC03PathWriterCopies(c *Ctx) {
+	c.Doc("c03.path-writer-copies", "the path writer of the group emission (SetPath): a map met on the path is copied INTO the map made for that step, never the other way round — the fresh, empty map copied over the existing one wipes the sibling that was stored before: with GROUP BY o.a, o.b one of the two columns is lost, and which one depends on Go's map order (a different row on every run)")
+	sp := c.P.Func(modPath, "SetPath")
+	if sp == nil {
+		// anchored structurally by c03.group-row-addressable; without the named function there is nothing to add here
+		c.PassTrivial("c03.path-writer-copies", "SetPath", "-", "no function of that name: see c03.group-row-addressable for the path writer")
+		return
+	}
+	c.Fn("SetPath")
+	var why []string
+	n := 0
+	for _, mc := range mapCopies(sp) {
+		n++
+		if _, fresh := mc.Dst.(*ssa.MakeMap); !fresh {
+			why = append(why, "a map is copied into "+NewTB().Of(mc.Dst).String()+" at "+c.P.Pos(mc.Pos)+", which is not the map made for that step: an existing map on the path is written to and a grouping column stored earlier is overwritten")
+		}
+	}
+	c.Check(len(why) == 0, "c03.path-writer-copies", "SetPath", c.P.Pos(sp.Pos()), fmt.Sprintf("%d map copies, each into the step's own map", n), strings.Join(why, "; "))
 }
